@@ -51,6 +51,8 @@ def gen_op(rng, alpha, step):
     if k == "append":
         return ["append", rng.randrange(len(alpha))]
     if k == "insert":
+        if rng.random() < 0.1:
+            return ["insert", "0", rng.randrange(len(alpha))]  # a position which is no integer: TypeError, nothing changes
         return ["insert", rng.randint(-4, 5), rng.randrange(len(alpha))]
     if k == "extend":
         # the argument is a plain list or itself a NamedItemList (names computed in another name space)
@@ -59,6 +61,9 @@ def gen_op(rng, alpha, step):
     if k == "remove":
         return ["remove", rng.randrange(len(alpha))]
     if k == "pop":
+        if rng.random() < 0.12:
+            # handed an item's name instead of a position: a TypeError, and nothing changes
+            return ["pop", "name", rng.randrange(len(alpha))]
         return ["pop", rng.randint(-4, 5)]
     # keep: go on with the original and watch the copy (else: go on with the copy and watch the original)
     return [k, "keep"] if rng.random() < 0.4 else [k]
@@ -71,7 +76,7 @@ def all_ops(alpha_n):
         ops.append(["remove", i])
         ops.append(["insert", 0, i])
         ops.append(["insert", -1, i])
-    ops += [["pop", -1], ["pop", 0], ["pop", 1], ["clear"], ["copy"], ["ccopy"], ["deepcopy"],
+    ops += [["pop", -1], ["pop", 0], ["pop", 1], ["pop", "name", 0], ["insert", "0", 1], ["clear"], ["copy"], ["ccopy"], ["deepcopy"],
             ["pickle"], ["extend", [0, 0]], ["extend", [1, 0]], ["extend", [1, 0], "nil"], ["extend", [1, 0], "iter"], ["extend", [1, 0], "bad"], ["copy", "keep"]]
     return ops
 
@@ -86,12 +91,16 @@ def case_to_wire(alpha, ops, by_identity=True):
         k = o[0]
         if k == "append":
             wops.append([0, item(o[1])])
+        elif k == "insert" and o[1] == "0":
+            wops.append([6])  # nothing changes (TypeError)
         elif k == "insert":
             wops.append([1, o[1], item(o[2])])
         elif k == "extend":
             wops.append([2, [item(i) for i in o[1]]])
         elif k == "remove":
             wops.append([3, item(o[1])])
+        elif k == "pop" and o[1] == "name":
+            wops.append([6])  # nothing changes (the call fails with a TypeError, see run_impl)
         elif k == "pop":
             wops.append([4, o[1]])
         elif k == "clear":
@@ -164,6 +173,12 @@ def run_impl(alpha, ops, reserved):
         try:
             if k == "append":
                 nil.append(objs[o[1]])
+            elif k == "insert" and o[1] == "0":
+                try:
+                    nil.insert("0", objs[o[2]])
+                    oc = 104
+                except TypeError:
+                    oc = 4
             elif k == "insert":
                 nil.insert(o[1], objs[o[2]])
             elif k == "extend":
@@ -181,6 +196,14 @@ def run_impl(alpha, ops, reserved):
                     nil.extend(NamedItemList(arg) if o[-1] == "nil" else (x for x in arg) if o[-1] == "iter" else arg)
             elif k == "remove":
                 nil.remove(objs[o[1]])
+            elif k == "pop" and o[1] == "name":
+                # the name under which the item is (or would be) known, or its short name
+                key = next((kk for kk, vv in nil.items() if vv is objs[o[2]]), objs[o[2]].short_name)
+                try:
+                    nil.pop(key)
+                    oc = 104
+                except TypeError:
+                    oc = 4
             elif k == "pop":
                 nil.pop(o[1])
             elif k == "clear":
@@ -274,6 +297,9 @@ def main(argv=None):
             for st_, o_ in enumerate(ops):
                 if o_[0] == "extend" and o_[-1] == "bad" and st_ < len(mres[ci]) and mres[ci][st_][0] == 0:
                     mres[ci][st_][0] = 3  # the failing call (see run_impl)
+                if ((o_[0] == "pop" and o_[1] == "name") or (o_[0] == "insert" and o_[1] == "0")) and st_ < len(mres[ci]) \
+                        and mres[ci][st_][0] == 0:
+                    mres[ci][st_][0] = 4
         obs, bad = run_impl(al, ops, reserved)
         ck.count((al, ops), nontrivial=len(ops) >= 2)
         ck.hist("history_length", min(len(ops), 50) // 5 * 5)
